@@ -185,8 +185,8 @@ Lemma TraceInfo_new_inv main aux rands length_ meta t :
   (aux = 0 -> rands = 0) /\ rands <= 255 /\ t = mkTI main aux rands length_ meta.
 Proof.
   intros H. unfold TraceInfo_new_multi_segment in H. inv_asserts H. inversion H; subst; clear H.
-  rewrite ?Z.gtb_lt, ?Z.leb_le, ?Z.geb_le in *. repeat split; auto; try lia.
-  intros ->. cbn in A5. now apply Z.eqb_eq.
+  rewrite ?Z.gtb_lt, ?Z.leb_le, ?Z.geb_le in *. unfold usize_max in *. repeat split; auto; try lia.
+  intros ->. cbn in A4. now apply Z.eqb_eq.
 Qed.
 
 (* TraceInfo::new / with_meta produce well-formed values (they are special cases of new_multi_segment) *)
@@ -558,8 +558,8 @@ Proof.
   { unfold TraceInfo_new_multi_segment, assert_, usize_max.
     rewrite is_pow2_pow by lia.
     destruct (Z.geb_spec (2 ^ e) 8); [|lia]. destruct (Z.leb_spec (len meta) 65535); [|lia].
-    destruct (Z.gtb_spec main 0); [|lia]. destruct (Z.leb_spec (main + aux) (2 ^ 64 - 1)); [|lia].
-    destruct (Z.leb_spec (main + aux) 255); [|lia].
+    destruct (Z.gtb_spec main 0); [|lia].
+    destruct (Z.leb_spec (Z.min (main + aux) (2 ^ 64 - 1)) 255); [|lia].
     assert (C : (if aux =? 0 then rands =? 0 else true) = true).
     { destruct (Z.eqb_spec aux 0); [|reflexivity]. cbn [andb] in C3. now apply negb_false_iff in C3. }
     rewrite C. destruct (Z.leb_spec rands 255); [reflexivity | lia]. }
